@@ -8,7 +8,7 @@ import printer
 from props.c07 import finish
 
 
-def build_split(rng, depth, prefix, rel_dir):
+def build_split(rng, depth, prefix, rel_dir, self_name=None):
     """Returns (items with mod items, flattened items, files {rel path: items}) for one file living in rel_dir."""
     own = printer.gen_items(rng, prefix=prefix, allow_services=True)
     items, flat, files = [], [], {}
@@ -26,7 +26,11 @@ def build_split(rng, depth, prefix, rel_dir):
     k = 0
     for i in range(len(own) + 1):
         while k < len(positions) and positions[k] == i:
-            if rng.random() < 0.45:
+            if self_name and rng.random() < 0.35:
+                # the layout sensors.fcp + sensors/temperature.fcp: a module file next to a directory of its own name, which holds the
+                # modules it imports (`mod sensors.temperature;` inside sensors.fcp)
+                parts = [self_name, f"c_{prefix}{k}"]
+            elif rng.random() < 0.45:
                 # the same base name in different directories (types.fcp next to sub/types.fcp, a/b/types.fcp)
                 parts = [[], ["sub"], ["a", "b"], ["lib"]][k % 4] + [rng.choice(["types", "common"])]
             else:
@@ -35,7 +39,7 @@ def build_split(rng, depth, prefix, rel_dir):
             mpath = (mdir + "/" if mdir else "") + parts[-1] + ".fcp"
             if mpath in files or any(mpath == q for q in files):
                 continue
-            m_items, m_flat, m_files = build_split(rng, depth - 1, f"{prefix}Q{k}_", mdir)
+            m_items, m_flat, m_files = build_split(rng, depth - 1, f"{prefix}Q{k}_", mdir, self_name=parts[-1])
             if rng.random() < 0.2:
                 # a module that declares no type at all: only devices, or only bindings / services of structs declared before the import
                 # (a devices.fcp, a bindings.fcp): such a subset is as movable as any other
@@ -71,7 +75,7 @@ def run(chk):
     broken = chk.proof_obligations(["Corr/Front.vo"])
     chk.coverage["rule"] = (
         "a tree of module files (depth <= 3, dotted paths a.b.m resolved relative to the importing file) each holding self-contained front-profile "
-        "declarations (structs, enums, impls, services, devices; a fifth of the modules declare no type at all), imported at random positions; the split schema is parsed from real files in a "
+        "declarations (structs, enums, impls, services, devices; a fifth of the modules declare no type at all), imported at random positions, also from a directory named like the importing module file (m.fcp next to m/); the split schema is parsed from real files in a "
         "scratch directory and compared with the single-file schema obtained by inlining every module at its import point; then one error is "
         "injected (syntax error or unresolved type inside a module, or a missing module file) and the diagnostic must name the module / the file; "
         "every outcome is compared in Coq with the model; non-trivial = at least one import")
